@@ -85,6 +85,7 @@ pub fn run(ctx: &mut Ctx) {
   let mut modes_seen = [false; 4];
   let mut vblank_requests = 0u64;
   let mut stat_requests = 0u64;
+  let mut reg_changes = 0u64;
   let mut unit = 0u64;
   let lycs: Vec<u8> = {
     let mut v: Vec<u8> = (0..=160u16).map(|x| x as u8).collect();
@@ -114,7 +115,20 @@ pub fn run(ctx: &mut Ctx) {
         let mut t: u64 = 0;
         let total = 3 * FRAME + 456 * 7;
         let mut vb_this_run = 0u64;
+        // every third partition also rewrites the enables / LYC between batches: what
+        // counts for an event is the register contents at the moment of the event
+        let (mut stat, mut lyc) = (stat, lyc);
         while t < total {
+          if part % 3 == 2 && rng.chance(1, 12) {
+            if rng.chance(1, 2) {
+              stat = (rng.below(16) as u8) << 3;
+              let _ = v.set_lcd_status(stat);
+            } else {
+              lyc = *rng.pick(&lycs);
+              let _ = v.set_ly_compare(lyc);
+            }
+            reg_changes += 1;
+          }
           // partition 0 is the canonical 4-clock stepping; others are random multiples of 4
           let n: u64 = if part == 0 {
             4
@@ -172,7 +186,7 @@ pub fn run(ctx: &mut Ctx) {
         }
         frames += t / FRAME;
         let _ = vb_this_run;
-        ctx.distinct_key(hash_words(&[mask as u64, lyc as u64, part as u64]));
+        ctx.distinct_key(hash_words(&[u, part as u64]));
       }
       if ctx.want_sample() && u % 41 == 7 {
         ctx.sample(&format!("STAT enables {:02X}, LYC={}: 3 frames + 7 lines from power-on, canonical 4-clock stepping and {} random partitions (multiples of 4 up to 80000); after every batch LY, mode, STAT bits 0-2 and the returned requests vs the closed-form schedule", stat, lyc, nparts - 1));
@@ -186,6 +200,7 @@ pub fn run(ctx: &mut Ctx) {
   ctx.count("modes-observed(this worker)", modes_seen.iter().filter(|x| **x).count() as u64);
   ctx.count("vblank-requests-observed", vblank_requests);
   ctx.count("stat-requests-observed", stat_requests);
+  ctx.count("enable-or-lyc-rewrites-between-batches", reg_changes);
 }
 
 pub fn on_crash(intent: &[u64], text: &str, status: &str, _err: &str) -> Option<(String, String)> {
